@@ -6,7 +6,7 @@ ASSUME Anchors
 
 HK(n) == Norm(<<n, 100>>)
 R(n, d) == Norm(<<n, d>>)
-AllModes == {"unitless", "units", "scaled", "scaledT"}
+AllModes == {"unitless", "concplain", "units", "scaled", "scaledT"}
 P1(f, Ts) == { [fn |-> f, a |-> [NoArgs EXCEPT !.T = HK(t)]] : t \in Ts }
 PermPts(Ts, Ps) == { [fn |-> "water_permittivity", a |-> [NoArgs EXCEPT !.T = HK(t), !.P = R(p, 1)]] : t \in Ts, p \in Ps }
 AcidPts(Ws, Ts) == { [fn |-> "sulfuric_acid_density", a |-> [NoArgs EXCEPT !.T = HK(t), !.w = R(w, 100)]] : w \in Ws, t \in Ts }
